@@ -2,6 +2,7 @@
 (C10 call site, C11, C13, C14, C15 paging, C16)."""
 from pyvc.dsl import contract, events, fields, fold, implies, lemma, old, opaque, pre, same_object
 from contracts.response import CAP_KEYS, PROP_KEYS, state_decode
+from contracts.capabilities import merged
 from msmart.device.AC.command import (CapabilitiesResponse, Command, EnergyUsageResponse, GetCapabilitiesCommand,
                                       GetEnergyUsageCommand, GetHumidityCommand, GetPropertiesCommand, GetStateCommand,
                                       HumidityResponse, PropertiesResponse, PropertyId, Response, SetPropertiesCommand,
@@ -201,3 +202,48 @@ contract(AC + ".toggle_display",
          post_let={"S": "events('sent')"},
          ensures={"toggle_first": "len(S) >= 2 and isinstance(S[0], ToggleDisplayCommand) and S[0].beep_on == old(self._beep_on)",
                   "then_refresh": "isinstance(S[1], GetStateCommand)"})
+
+# ---- capabilities -------------------------------------------------------------------------------------------------
+CAP_ATTRS = ["self._supported_op_modes", "self._supported_swing_modes", "self._supported_fan_speeds",
+             "self._supports_custom_fan_speed", "self._supports_eco", "self._supports_turbo", "self._supports_freeze_protection",
+             "self._supports_display_control", "self._supports_filter_reminder", "self._supports_purifier",
+             "self._supported_aux_modes", "self._min_target_temperature", "self._max_target_temperature",
+             "self._request_energy_usage", "self._supports_humidity", "self._supports_target_humidity",
+             "self._supported_properties", "self._supported_rate_selects"]
+
+
+def cap(res, key):
+    return res._capabilities.get(key, False)
+
+
+contract(AC + "._update_capabilities",
+         params={"self": "obj:" + AC, "res": "obj:" + CMD + "CapabilitiesResponse"},
+         modifies=CAP_ATTRS,
+         raises={},
+         ensures={
+             # C16: the property ids the device advertised (breeze control supersedes the legacy ids)
+             "props.angles": "(PropertyId.SWING_UD_ANGLE in self._supported_properties) == cap(res, 'swing_vertical_angle') and (PropertyId.SWING_LR_ANGLE in self._supported_properties) == cap(res, 'swing_horizontal_angle')",
+             "props.self_clean": "(PropertyId.SELF_CLEAN in self._supported_properties) == cap(res, 'self_clean')",
+             "props.rate_select": "(PropertyId.RATE_SELECT in self._supported_properties) == (cap(res, 'rate_select_5_level') or cap(res, 'rate_select_2_level'))",
+             "props.breeze_control": "(PropertyId.BREEZE_CONTROL in self._supported_properties) == cap(res, 'breeze_control')",
+             "props.breeze_legacy": "(PropertyId.BREEZE_AWAY in self._supported_properties) == (cap(res, 'breeze_away') and not cap(res, 'breeze_control')) and (PropertyId.BREEZELESS in self._supported_properties) == (cap(res, 'breezeless') and not cap(res, 'breeze_control'))",
+             "props.ieco": "(PropertyId.IECO in self._supported_properties) == cap(res, 'ieco')",
+             "props.nothing_else": "PropertyId.BUZZER not in self._supported_properties and PropertyId.ANION not in self._supported_properties and PropertyId.FRESH_AIR not in self._supported_properties and PropertyId.INDOOR_HUMIDITY not in self._supported_properties",
+             "energy_only_enabled": "self._request_energy_usage == (old(self._request_energy_usage) or cap(res, 'energy_stats'))",
+             "flags": "self._supports_eco == cap(res, 'eco') and self._supports_humidity == (cap(res, 'humidity_auto_set') or cap(res, 'humidity_manual_set')) and self._supports_custom_fan_speed == cap(res, 'fan_custom')",
+         })
+
+contract(CMD + "CapabilitiesResponse.merge",
+         params={"self": "obj:" + CMD + "CapabilitiesResponse", "other": "obj:" + CMD + "CapabilitiesResponse"},
+         modifies=["self._capabilities"],
+         raises={},
+         ensures={"later_page_wins": "self._capabilities == merged(old(self._capabilities), other._capabilities)"})
+
+contract(AC + ".get_capabilities",
+         params={"self": "obj:" + AC}, globals=G,
+         modifies=CAP_ATTRS + ["self._supported", "Command._message_id"],
+         raises={},
+         post_let={"S": "events('sent')"},
+         ensures={"first_page": "len(S) >= 1 and isinstance(S[0], GetCapabilitiesCommand) and S[0]._additional == False",
+                  "second_page_is_additional": "implies(len(S) >= 2, isinstance(S[1], GetCapabilitiesCommand) and S[1]._additional == True)",
+                  "at_most_two": "len(S) <= 2"})
